@@ -130,10 +130,16 @@ def generate(c, tl2gen, sc, extra_flags=None):
         return False, sc.gen_out[-1500:]
     main_dir = os.path.join(mod, "cmd_" + sc.sid)
     os.makedirs(main_dir, exist_ok=True)
-    tmpl = open(os.path.join(ROOT, "go", "hgen", "main.go.tmpl")).read().replace("@PKG@", "verif.local/h/g_" + sc.sid)
-    if not os.path.isdir(os.path.join(out, "factory_bytes")):
-        tmpl = tmpl.replace('\t_ "verif.local/h/g_%s/factory_bytes"\n' % sc.sid, "")
-    open(os.path.join(main_dir, "main.go"), "w").write(tmpl)
+    for fn in os.listdir(main_dir):
+        os.remove(os.path.join(main_dir, fn))
+    hdir = os.path.join(ROOT, "go", "hgen")
+    for fn in sorted(os.listdir(hdir)):
+        if not fn.endswith(".go.tmpl"):
+            continue
+        tmpl = open(os.path.join(hdir, fn)).read().replace("@PKG@", "verif.local/h/g_" + sc.sid)
+        if not os.path.isdir(os.path.join(out, "factory_bytes")):
+            tmpl = tmpl.replace('\t_ "verif.local/h/g_%s/factory_bytes"\n' % sc.sid, "")
+        open(os.path.join(main_dir, fn[:-5]), "w").write(tmpl)
     binp = os.path.join(c.workdir, "bin", "gen_" + sc.sid)
     env = goenv()
     env["GOFLAGS"] = "-mod=mod"
